@@ -114,16 +114,27 @@ func runC09(op string, in []string) string {
 	})
 }
 
-// c09Scale is a coordinate pool: multiples of 1/den in [0, span].
+// c09Scale is a coordinate pool: multiples of 1/den in [off, off+span].  Half of the pools reach below zero
+// (straddling it, touching it from below, or wholly negative), so that math.Nextafter on a negative or zero
+// abscissa is judged by the exact spec too; every pool stays within |v| <= 2^16, multiples of 2^-8 after the
+// halving / quartering done by the query generator (the driver's `scaled?` domain).
 type c09Scale struct {
 	span int
 	den  int
+	off  int
 }
 
-var c09Scales = []c09Scale{{4, 1}, {4, 1}, {3, 2}, {6, 1}, {5, 2}, {8, 4}, {16, 1}, {1000, 1}, {65000, 1}, {200, 64}}
+var c09Scales = []c09Scale{
+	{4, 1, 0}, {4, 1, 0}, {3, 2, 0}, {6, 1, 0}, {5, 2, 0}, {8, 4, 0}, {16, 1, 0}, {1000, 1, 0}, {65000, 1, 0}, {200, 64, 0},
+	{4, 1, -2}, {4, 1, -4}, {3, 2, -5}, {6, 1, -3}, {5, 2, -5}, {8, 4, -3}, {16, 1, -16}, {1000, 1, -500}, {65000, 1, -32500}, {200, 64, -137},
+}
 
-func (s c09Scale) coord(r *rand.Rand) float64 { return float64(r.Intn(s.span*s.den+1)) / float64(s.den) }
-func (s c09Scale) pt(r *rand.Rand) orb.Point  { return orb.Point{s.coord(r), s.coord(r)} }
+func (s c09Scale) lo() float64 { return float64(s.off) }
+func (s c09Scale) hi() float64 { return float64(s.off + s.span) }
+func (s c09Scale) coord(r *rand.Rand) float64 {
+	return float64(s.off) + float64(r.Intn(s.span*s.den+1))/float64(s.den)
+}
+func (s c09Scale) pt(r *rand.Rand) orb.Point { return orb.Point{s.coord(r), s.coord(r)} }
 
 // genRingC09 draws a ring of n vertices with repeated vertices and vertical, horizontal and collinear edges.
 func genRingC09(r *rand.Rand, s c09Scale, n int) orb.Ring {
@@ -146,7 +157,7 @@ func genRingC09(r *rand.Rand, s c09Scale, n int) orb.Ring {
 					d := orb.Point{prev[0] - rg[i-2][0], prev[1] - rg[i-2][1]}
 					k := float64(r.Intn(4) - 1)
 					q := orb.Point{prev[0] + k*d[0], prev[1] + k*d[1]}
-					if q[0] >= 0 && q[1] >= 0 && q[0] <= float64(s.span) && q[1] <= float64(s.span) {
+					if q[0] >= s.lo() && q[1] >= s.lo() && q[0] <= s.hi() && q[1] <= s.hi() {
 						p = q
 					}
 				}
@@ -167,7 +178,7 @@ func genQueriesC09(r *rand.Rand, s c09Scale, rings []orb.Ring, m int) []orb.Poin
 	}
 	qs := make([]orb.Point, 0, m)
 	for len(qs) < m {
-		q := orb.Point{float64(r.Intn(2*s.span*s.den+5)-2) / float64(2*s.den), float64(r.Intn(2*s.span*s.den+5)-2) / float64(2*s.den)}
+		q := orb.Point{s.lo() + float64(r.Intn(2*s.span*s.den+5)-2)/float64(2*s.den), s.lo() + float64(r.Intn(2*s.span*s.den+5)-2)/float64(2*s.den)}
 		if len(vs) > 0 {
 			a := vs[r.Intn(len(vs))]
 			b := vs[r.Intn(len(vs))]
@@ -196,38 +207,93 @@ func genQueriesC09(r *rand.Rand, s c09Scale, rings []orb.Ring, m int) []orb.Poin
 	return qs
 }
 
+// holeBoundaryPts: for every non-empty hole of the polygon, points EXACTLY on its boundary — a vertex, the midpoint
+// of an edge and the point a quarter along an edge (the closing edge included); all exact in float64 on the pools.
+// PolygonContains must answer false for them (the hole's closed region is removed), whatever the outer ring says.
+func holeBoundaryPts(r *rand.Rand, pg orb.Polygon) []orb.Point {
+	var qs []orb.Point
+	for i := 1; i < len(pg); i++ {
+		h := pg[i]
+		if len(h) == 0 {
+			continue
+		}
+		k := r.Intn(len(h))
+		a, b := h[k], h[(k+1)%len(h)]
+		switch r.Intn(3) {
+		case 0:
+			qs = append(qs, a)
+		case 1:
+			qs = append(qs, orb.Point{(a[0] + b[0]) / 2, (a[1] + b[1]) / 2})
+		default:
+			qs = append(qs, orb.Point{a[0] + (b[0]-a[0])/4, a[1] + (b[1]-a[1])/4})
+		}
+		if r.Intn(2) == 0 {
+			qs = append(qs, h[r.Intn(len(h))])
+		}
+	}
+	return qs
+}
+
 func c09Line(rg orb.Ring, qs []orb.Point) string { return spts(rg) + " " + spts(qs) }
 
 func genC09(c *Ctx) {
 	r := c.Rng
 	idx := 0
-	// exhaustive: every ring of 1..3 (quick) / 1..4 (thorough) vertices on the 4x4 grid against the
-	// half-step lattice reaching half a step beyond the grid; all rotations, the reversal, closed and unclosed
-	maxN := 3
+	// exhaustive: every ring of 1..3 vertices on the 4x4 grid {off..off+3}^2 against the half-step lattice reaching
+	// half a step beyond the grid; all rotations, the reversal, closed and unclosed.  off = 0 and off = -2 (the grid
+	// straddles zero: Nextafter on negative abscissae and on -0.5, 0) in both tiers, off = -4 (all negative) in
+	// thorough.  The 4-vertex rings (local extrema, collinear fold-backs, bow-ties: the alignments 3 vertices cannot
+	// form) are ENUMERATED at off = 0 in thorough and SAMPLED otherwise (quick: 4000 of the 3 x 65536 over the three
+	// offsets; thorough: 40000 more at the negative offsets).
+	gridRing := func(n, code, off int) orb.Ring {
+		rg := make(orb.Ring, n)
+		k := code
+		for i := 0; i < n; i++ {
+			rg[i] = orb.Point{float64(off + k%4), float64(off + k/4%4)}
+			k /= 16
+		}
+		return rg
+	}
+	gridCase := func(rg orb.Ring, off int) {
+		c.Case("grid", strconv.Itoa(2*off-1)+" "+strconv.Itoa(2*off+7)+" "+spts(rg))
+	}
+	offs := []int{0, -2}
 	if c.Tier == "thorough" {
-		maxN = 4
+		offs = []int{0, -2, -4}
 	}
 	if c.Shard == 0 {
-		c.Case("grid", "-1 7 0")
+		for _, off := range offs {
+			gridCase(orb.Ring{}, off)
+		}
 	}
-	for n := 1; n <= maxN; n++ {
-		total := 1
-		for i := 0; i < n; i++ {
-			total *= 16
+	for _, off := range offs {
+		maxN := 3
+		if c.Tier == "thorough" && off == 0 {
+			maxN = 4
 		}
-		for code := 0; code < total && !c.Exhausted(); code++ {
-			idx++
-			if !c.Mine(idx) {
-				continue
-			}
-			rg := make(orb.Ring, n)
-			k := code
+		for n := 1; n <= maxN; n++ {
+			total := 1
 			for i := 0; i < n; i++ {
-				rg[i] = orb.Point{float64(k % 4), float64(k / 4 % 4)}
-				k /= 16
+				total *= 16
 			}
-			c.Case("grid", "-1 7 "+spts(rg))
+			for code := 0; code < total && !c.Exhausted(); code++ {
+				idx++
+				if !c.Mine(idx) {
+					continue
+				}
+				gridCase(gridRing(n, code, off), off)
+			}
 		}
+	}
+	n4 := 4000
+	allOffs := []int{0, -2, -4}
+	if c.Tier == "thorough" {
+		n4 = 40000
+		allOffs = []int{-2, -4}
+	}
+	for k := 0; k < n4/c.Shards+1 && !c.Exhausted(); k++ {
+		off := allOffs[r.Intn(len(allOffs))]
+		gridCase(gridRing(4, r.Intn(65536), off), off)
 	}
 	// random
 	for k := 0; k < c.Budget && !c.Exhausted(); k++ {
@@ -264,6 +330,7 @@ func genC09(c *Ctx) {
 		case 6, 7, 8: // polygons with holes
 			pg := genPolyC09(r, s)
 			qs := genQueriesC09(r, s, []orb.Ring(pg), 8+r.Intn(10))
+			qs = append(qs, holeBoundaryPts(r, pg)...)
 			c.Case("poly", gs(pg)+" "+spts(qs))
 		default: // multi-polygons
 			np := r.Intn(4)
@@ -277,6 +344,9 @@ func genC09(c *Ctx) {
 				all = []orb.Ring{{}}
 			}
 			qs := genQueriesC09(r, s, all, 8+r.Intn(10))
+			for _, pg := range mp {
+				qs = append(qs, holeBoundaryPts(r, pg)...)
+			}
 			c.Case("mpoly", gs(mp)+" "+spts(qs))
 		}
 	}
@@ -290,8 +360,8 @@ func genPolyC09(r *rand.Rand, s c09Scale) orb.Polygon {
 	}
 	pg := orb.Polygon{}
 	if r.Intn(3) == 0 { // a box outer ring, so that holes are mostly inside
-		w := float64(s.span)
-		pg = append(pg, orb.Ring{{0, 0}, {w, 0}, {w, w}, {0, w}, {0, 0}})
+		a, w := s.lo(), s.hi()
+		pg = append(pg, orb.Ring{{a, a}, {w, a}, {w, w}, {a, w}, {a, a}})
 	} else {
 		rg := genRingC09(r, s, 3+r.Intn(7))
 		if r.Intn(2) == 0 {
@@ -302,6 +372,14 @@ func genPolyC09(r *rand.Rand, s c09Scale) orb.Polygon {
 	nh := r.Intn(4)
 	for i := 0; i < nh; i++ {
 		h := genRingC09(r, s, 3+r.Intn(4))
+		if r.Intn(4) == 0 && s.span*s.den >= 4 { // an axis-parallel box hole strictly inside the pool's range
+			u := 1 / float64(s.den)
+			x0 := s.lo() + u*float64(1+r.Intn(s.span*s.den-3))
+			y0 := s.lo() + u*float64(1+r.Intn(s.span*s.den-3))
+			x1 := x0 + u*float64(1+r.Intn(int((s.hi()-u-x0)/u)))
+			y1 := y0 + u*float64(1+r.Intn(int((s.hi()-u-y0)/u)))
+			h = orb.Ring{{x0, y0}, {x0, y1}, {x1, y1}, {x1, y0}}
+		}
 		if r.Intn(2) == 0 {
 			h = append(h, h[0])
 		}
@@ -313,4 +391,3 @@ func genPolyC09(r *rand.Rand, s c09Scale) orb.Polygon {
 	return pg
 }
 
-var _ = strconv.Itoa
